@@ -488,7 +488,7 @@ Section Extract.
       destruct (omit_eqb _ _); cbn; [rewrite app_nil_r|]; reflexivity.
     - cbn. destruct e; [|cbn; rewrite app_nil_r; reflexivity].
       destruct (decode_tags n t); [|exact I].
-      destruct (omit_eqb _ _); cbn; [rewrite app_nil_r; reflexivity|exact I].
+      destruct (omit_eqb _ _); cbn; [rewrite app_nil_r|]; reflexivity.
     - rewrite extract_decl_struct, flat_decl_struct.
       destruct e; [|cbn; rewrite app_nil_r; reflexivity].
       destruct (decode_tags n t); [|exact I].
@@ -574,7 +574,9 @@ Section Paths.
       + split; [repeat constructor; intros []|]. repeat constructor. exists []. cbn. rewrite app_nil_r. reflexivity.
     - cbn in H. destruct e; [|inversion H; subst; split; constructor].
       destruct (decode_tags n t); [|discriminate].
-      destruct (omit_eqb _ _); inversion H; subst; split; constructor.
+      destruct (omit_eqb _ _); inversion H; subst; cbn.
+      + split; constructor.
+      + split; [repeat constructor; intros []|]. repeat constructor. exists []. cbn. rewrite app_nil_r. reflexivity.
     - rewrite flat_decl_struct in H. destruct e; [|inversion H; subst; split; constructor].
       destruct (decode_tags n t); [|discriminate].
       destruct (omit_eqb _ _); [inversion H; subst; split; constructor|].
@@ -816,9 +818,11 @@ Section IterBuild.
       inversion H2; subst.
       destruct (omit_eqb _ _); inversion H1; subst; intros f Hf; [destruct Hf|].
       destruct Hf as [<-|[]]. exists (t_name tg). split; [reflexivity|]. left. reflexivity.
-    - cbn in H1. destruct e; [|inversion H1; subst; intros f []].
-      destruct (decode_tags n t); [|discriminate].
-      destruct (omit_eqb _ _); [|discriminate]. inversion H1; subst. intros f [].
+    - cbn in H1, H2. destruct e; [|inversion H1; subst; intros f []].
+      destruct (decode_tags n t) as [tg|]; [|discriminate].
+      inversion H2; subst.
+      destruct (omit_eqb _ _); inversion H1; subst; intros f Hf; [destruct Hf|].
+      destruct Hf as [<-|[]]. exists (t_name tg). split; [reflexivity|]. left. reflexivity.
     - rewrite flat_decl_struct in H1. rewrite btable_decl_struct in H2.
       destruct e; [|inversion H1; subst; intros f []].
       destruct (decode_tags n t); [|discriminate].
@@ -1059,63 +1063,58 @@ Fixpoint tags_parse_decl (d : fdecl) : bool :=
   end.
 Definition tags_parse (fs : list fdecl) : bool := forallb tags_parse_decl fs.
 
-(* no embedded field of a non-struct type is reached *)
-Fixpoint no_emb_other_decl (d : fdecl) : bool :=
-  match d with
-  | FLeaf _ _ _ => true
-  | FEmbOther n e t => if e then match decode_tags n t with
-                                 | Some tg => omit_eqb (t_omit tg) OAlways
-                                 | None => true
-                                 end
-                       else true
-  | FEmbStruct n e t fs =>
-    if e then match decode_tags n t with
-              | Some tg => omit_eqb (t_omit tg) OAlways || forallb no_emb_other_decl fs
-              | None => true
-              end
-    else true
-  end.
-Definition no_emb_other (fs : list fdecl) : bool := forallb no_emb_other_decl fs.
-
 Section Total.
   Variable ulower : N -> N.
   Variable snake : bool.
 
   Lemma flat_list_total fs :
-    Forall (fun d => tags_parse_decl d = true -> no_emb_other_decl d = true ->
-                     forall p, flat_decl ulower snake d p <> None) fs ->
-    forallb tags_parse_decl fs = true -> forallb no_emb_other_decl fs = true ->
+    Forall (fun d => tags_parse_decl d = true -> forall p, flat_decl ulower snake d p <> None) fs ->
+    forallb tags_parse_decl fs = true ->
     forall i p, flat_list ulower snake fs i p <> None.
   Proof.
-    induction 1 as [|d r Hd Hr IH]; intros H1 H2 i p; [discriminate|].
-    cbn [forallb] in H1, H2. apply andb_true_iff in H1 as [A1 A2]. apply andb_true_iff in H2 as [B1 B2].
-    cbn [flat_list]. specialize (Hd A1 B1 (p ++ [i])). specialize (IH A2 B2 (N.succ i) p).
+    induction 1 as [|d r Hd Hr IH]; intros H1 i p; [discriminate|].
+    cbn [forallb] in H1. apply andb_true_iff in H1 as [A1 A2].
+    cbn [flat_list]. specialize (Hd A1 (p ++ [i])). specialize (IH A2 (N.succ i) p).
     destruct (flat_decl ulower snake d (p ++ [i])); [|congruence].
     destruct (flat_list ulower snake r (N.succ i) p); [discriminate|congruence].
   Qed.
 
   Lemma flat_decl_total d :
-    tags_parse_decl d = true -> no_emb_other_decl d = true -> forall p, flat_decl ulower snake d p <> None.
+    tags_parse_decl d = true -> forall p, flat_decl ulower snake d p <> None.
   Proof.
-    induction d as [n e t|n e t|n e t fs IH] using fdecl_ind'; intros H1 H2 p.
+    induction d as [n e t|n e t|n e t fs IH] using fdecl_ind'; intros H1 p.
     - cbn in *. destruct e; [|discriminate]. destruct (decode_tags n t); [|discriminate].
       destruct (omit_eqb _ _); discriminate.
     - cbn in *. destruct e; [|discriminate]. destruct (decode_tags n t); [|discriminate].
-      rewrite H2. discriminate.
-    - rewrite flat_decl_struct. cbn [tags_parse_decl no_emb_other_decl] in H1, H2.
+      destruct (omit_eqb _ _); discriminate.
+    - rewrite flat_decl_struct. cbn [tags_parse_decl] in H1.
       destruct e; [|discriminate]. destruct (decode_tags n t); [|discriminate].
-      destruct (omit_eqb _ _); [discriminate|]. cbn [orb] in H1, H2.
+      destruct (omit_eqb _ _); [discriminate|]. cbn [orb] in H1.
       apply flat_list_total; assumption.
   Qed.
 
+  (* Extraction succeeds on every struct type whose tags parse: embedded
+     fields of non-struct types included. *)
   Theorem flat_fields_total fs :
-    tags_parse fs = true -> no_emb_other fs = true -> exists fl, flat_fields ulower snake fs = Some fl.
+    tags_parse fs = true -> exists fl, flat_fields ulower snake fs = Some fl.
   Proof.
-    intros H1 H2. unfold flat_fields.
+    intros H1. unfold flat_fields.
     assert (H : flat_list ulower snake fs 0 [] <> None).
     { apply flat_list_total; auto. apply Forall_forall. intros d _. apply flat_decl_total. }
     destruct (flat_list ulower snake fs 0 []) as [fl|]; [exists fl; reflexivity|congruence].
   Qed.
+
+  (* An embedded field of a non-struct type is treated exactly like an
+     ordinary field of the same name and tag, on both sides. *)
+  Lemma emb_other_is_leaf_extract n e t p acc :
+    extract_decl ulower snake (FEmbOther n e t) p acc = extract_decl ulower snake (FLeaf n e t) p acc.
+  Proof. reflexivity. Qed.
+  Lemma emb_other_is_leaf_flat n e t p :
+    flat_decl ulower snake (FEmbOther n e t) p = flat_decl ulower snake (FLeaf n e t) p.
+  Proof. reflexivity. Qed.
+  Lemma emb_other_is_leaf_btable n e t p :
+    btable_decl (FEmbOther n e t) p = btable_decl (FLeaf n e t) p.
+  Proof. reflexivity. Qed.
 End Total.
 
 (* ------------------------------------------------------------------------- *)
@@ -1148,9 +1147,19 @@ Definition skips_non_string_key : Prop :=
     run ulower tbl ci (FStruct true tgt :: below) fv (BScalar id :: flatten v ++ rest)
     = run ulower tbl ci (FStruct true tgt :: below) fv rest.
 
+(* struct { MyInt; C int } with type MyInt int, formerly a panic: the embedded
+   field is emitted under the snake-cased name of its type and found again *)
 Definition wA : list fdecl := [FEmbOther [77;121;73;110;116] (* MyInt *) true []; FLeaf [67] true []].
-Lemma marshal_total_refuted : ~ marshal_total.
-Proof. intro H. apply (H id_lower true wA); vm_compute; reflexivity. Qed.
+Lemma marshal_total_holds : marshal_total.
+Proof.
+  intros ulower snake fs H. destruct (flat_fields_total ulower snake fs H) as [fl ->]. discriminate.
+Qed.
+Lemma embedded_non_struct_witness :
+  (iterate_struct id_lower true OEmpty wA dummy_valuation
+   = Some [([109;121;95;105;110;116], [0]); ([99], [1])]) /\
+  (btable wA = Some [([77;121;73;110;116], [0]); ([67], [1])]) /\
+  (lookup id_lower [([77;121;73;110;116], [0]); ([67], [1])] true [109;121;95;105;110;116] = Some [0]).
+Proof. vm_compute. repeat split; reflexivity. Qed.
 
 Definition wTbl : list (str * path) := [([65], [0]); ([67], [1])].
 Lemma skips_any_value_refuted : ~ skips_any_value.
@@ -1190,12 +1199,11 @@ Definition full_statement : Prop :=
   marshal_total /\ marshal_emits_kept /\ names_round_trip /\ skips_any_value /\ skips_non_string_key.
 
 Lemma full_statement_refuted : ~ full_statement.
-Proof. intros (H & _). exact (marshal_total_refuted H). Qed.
+Proof. intros (_ & _ & _ & H & _). exact (skips_any_value_refuted H). Qed.
 
-(* The fragment: embedded fields are structs (or omitted), values under unknown
-   keys contain no edge, keys are strings. *)
+(* The fragment: values under unknown keys contain no edge, keys are strings. *)
 Definition partial_statement : Prop :=
-  (forall ulower snake fs, tags_parse fs = true -> no_emb_other fs = true ->
+  (forall ulower snake fs, tags_parse fs = true ->
                            exists fl, flat_fields ulower snake fs = Some fl)
   /\ marshal_emits_kept /\ names_round_trip
   /\ (forall ulower tbl ci k v tgt below fv rest,
@@ -1216,3 +1224,18 @@ Proof.
   split; [intros; apply unknown_key_skipped; assumption|].
   intros. apply unknown_entry_does_not_disturb; assumption.
 Qed.
+
+(* ------------------------------------------------------------------------- *)
+(* Records: the record type and every record list the same fields — the
+   extracted fields not dropped by the omit flag / default alone — in the same
+   (tag, then declaration) order, independently of the values. *)
+Lemma record_fields_spec ulower snake dflt fs :
+  record_fields ulower snake dflt fs
+  = option_map (fun fl => map emit (sort_fields (filter (kept dflt dummy_valuation) fl)))
+               (flat_fields ulower snake fs).
+Proof. unfold record_fields. apply iterate_struct_spec. Qed.
+
+Lemma kept_dummy dflt f :
+  kept dflt dummy_valuation f
+  = negb (omit_eqb (match sf_omit f with ODefault => dflt | o => o end) OAlways).
+Proof. unfold kept, should_include. destruct (sf_omit f), dflt; reflexivity. Qed.
